@@ -289,7 +289,32 @@ export class TypeGen {
       [this.f.namedInter && objNames.length >= 1 ? 4 : 0, "named"],
       [this.f.nonObjectInter ? 1.5 : 0, "scalar"],
       [this.f.records ? 1 : 0, "objrec"],
+      [2, "optflip"],
+      [this.f.utilities && objNames.length >= 1 ? 2 : 0, "utilmix"],
     ]);
+    if (mode === "optflip") {
+      // the same key declared in two members with the same or a different type / optionality
+      const ps = this.props(depth, 1 + r.below(2));
+      if (!ps.length) return this.objectType(depth);
+      const p = ps[0];
+      const twin = r.wpick([
+        [4, () => ({ ...p, opt: !p.opt })],
+        [1, () => ({ ...p })],
+        [1, () => ({ ...p, t: this.scalarLeaf() })],
+      ])();
+      const other = this.props(depth, r.below(2)).filter((q) => !ps.some((x) => x.name === q.name));
+      const a = A.obj(ps);
+      const b = A.obj([twin, ...other]);
+      return A.inter(r.chance(0.5) ? [a, b] : [b, a]);
+    }
+    if (mode === "utilmix") {
+      const n = r.pick(objNames);
+      const keys = this.env.shapeOf(this.info.get(n).core).props.map((q) => q.name);
+      const k = A.lit(r.pick(keys));
+      const picked = r.chance(0.5) ? A.util("Pick", [A.ref(n), k]) : A.util("Required", [A.util("Pick", [A.ref(n), k])]);
+      const rest = r.pick([A.util("Partial", [A.ref(n)]), A.util("Omit", [A.ref(n), k]), A.util("Partial", [A.util("Pick", [A.ref(n), k])])]);
+      return A.inter(r.chance(0.5) ? [picked, rest] : [rest, picked]);
+    }
     if (mode === "lits") {
       // object literals with disjoint keys (or identical duplicated members)
       const k = 2 + r.below(2);
